@@ -959,8 +959,16 @@ func (s *Sim) auditIDs(r *Rng) {
 	auth := e.Authority.Addr.String()
 	for _, proto := range []string{"PROTOCOL_CCTP", "PROTOCOL_HYPERLANE"} {
 		accepted := map[string]bool{}
-		for k := 0; k < 10; k++ {
+		for k := 0; k < 12; k++ {
 			sid := idSpellings[r.Intn(len(idSpellings))]
+			switch r.Intn(6) {
+			case 0: // ten decimal digits beyond 2^32-1
+				sid = strconv.FormatUint(4294967296+r.U64()%5705032704, 10)
+			case 1: // in range, arbitrary
+				sid = strconv.FormatUint(r.U64()%4294967296, 10)
+			case 2: // the channels this chain has seen traffic on
+				sid = fmt.Sprintf("channel-%d", r.Intn(7))
+			}
 			if s.Model.PausedCC[proto+"|"+sid] {
 				continue
 			}
